@@ -60,8 +60,21 @@ func payload(kind string, n int, tag string) []byte {
 		head = "plain text " + tag + "\n"
 		unit = "sed do eiusmod " + tag + " tempor incididunt ut labore\n"
 	default:
-		head = "\x89PNG\r\n\x1a\n\x00\x00\x00\rIHDR"
-		unit = "\x00\x01\x02\xfe\xff" + tag + "\x80\x81\x90\x00"
+		// incompressible: the WARC writer has real work to do for the large bodies
+		b := make([]byte, 0, n+32)
+		b = append(b, "\x89PNG\r\n\x1a\n\x00\x00\x00\rIHDR"...)
+		b = append(b, tag...)
+		x := uint64(88172645463325252)
+		for _, c := range []byte(tag) {
+			x = x*1099511628211 ^ uint64(c)
+		}
+		for len(b) < n {
+			x ^= x << 13
+			x ^= x >> 7
+			x ^= x << 17
+			b = append(b, byte(x), byte(x>>8), byte(x>>16), byte(x>>24), byte(x>>32), byte(x>>40), byte(x>>48), byte(x>>56))
+		}
+		return b[:n]
 	}
 	b := make([]byte, 0, n+len(unit))
 	b = append(b, head...)
